@@ -62,6 +62,8 @@ pub struct Block {
 
 pub struct Env {
     pub plan: [u64; 256],
+    /// second plan, used by hasher instances built with `alt = true`
+    pub plan_b: [u64; 256],
     /// menu of alternative hashes per key id for choice mode (C05)
     pub alt: [[u64; 3]; 256],
     pub armed: bool,
@@ -91,6 +93,7 @@ impl Env {
     const fn new() -> Self {
         Env {
             plan: [0; 256],
+            plan_b: [0; 256],
             alt: [[0; 3]; 256],
             armed: false,
             fault: None,
